@@ -18,7 +18,7 @@ tvars == <<vars, tid, i, j, fin>>
 C == Cases[tid][1]
 Total(c) == Len(c.rq) + Len(c.ac) + 1
 Seq2(s) == [x \in 1..Len(s) |-> s[x]]          \* JSON arrays arrive as sequences already; normalises <<>> 
-Fld(e) == Seq2(e.f)
+Fld(e) == IF "f" \in DOMAIN e THEN Seq2(e.f) ELSE <<>>
 
 TraceInit ==
   /\ tid \in 1..Len(Cases) /\ i = 1 /\ j = 1 /\ fin = FALSE /\ Init
@@ -32,7 +32,7 @@ RqStep ==
   /\ LET e == RqEv IN
      CASE e.ev = "RqRequest" -> RqRequest
        [] e.ev = "RqAssocInd" -> RqAssocInd /\ Head(ind["R"]).k = e.res /\ Head(ind["R"]).f = Fld(e)
-       [] e.ev = "RqSend" -> RqSend
+       [] e.ev = "RqSend" -> RqSendD(Fld(e))
        [] e.ev = "RqWait" -> RqWait
        [] e.ev = "RqRecv" -> RqRecv /\ Head(ind["R"]).k = e.res /\ Head(ind["R"]).f = Fld(e)
        [] e.ev = "RqAbort" -> RqAbort(e.r)
@@ -49,7 +49,7 @@ AcStep ==
      CASE e.ev = "AcRefuse" -> AcRefuse(Fld(e))
        [] e.ev = "AcAccept" -> AcAccept
        [] e.ev = "AcRecv" -> AcRecv /\ Head(ind["A"]).k = e.res /\ Head(ind["A"]).f = Fld(e)
-       [] e.ev = "AcRespond" -> AcRespond
+       [] e.ev = "AcRespond" -> AcRespondD(Fld(e))
        [] e.ev = "AcReturn" -> AcReturn
        [] e.ev = "AcAbort" -> AcAbort(e.r)
        [] e.ev = "AcRelease" -> AcRelease
